@@ -136,11 +136,15 @@ static enum websocket_callback_return private_decompress(struct websocket *s, ui
 	strm->next_in = in;
 
 	size_t size_out = 20 * length;
+	if (size_out == 0) {
+		/* empty message: inflate still needs room to work on the appended tail */
+		size_out = 20;
+	}
 	strm->avail_out = size_out;
 	*free_ptr = malloc(size_out);
 	if (*free_ptr == NULL) {
 		log_err("inflate out error: malloc");
-		return WS_ERROR;
+		goto error;
 	}
 	uint8_t *out = *free_ptr;
 	strm->next_out = out;
@@ -148,12 +152,12 @@ static enum websocket_callback_return private_decompress(struct websocket *s, ui
 		if (strm->avail_out == 0) {
 			strm->avail_out += size_out;
 			size_out *= 2;
-			*free_ptr = realloc(*free_ptr, size_out);
-			if (*free_ptr == NULL) {
+			out = realloc(*free_ptr, size_out);
+			if (out == NULL) {
 				log_err("inflate out error: realloc");
-				return WS_ERROR;
+				goto error;
 			}
-			out = *free_ptr;
+			*free_ptr = out;
 			strm->next_out = out + size_out / 2;
 		}
 		if (s->extension_compression.client_no_context_takeover) {
@@ -165,16 +169,23 @@ static enum websocket_callback_return private_decompress(struct websocket *s, ui
 			log_err("inflate error:");
 			print_converted_ret(ret);
 			inflateEnd(strm);
-			return WS_ERROR;
+			goto error;
 		}
 	}while(strm->avail_out == 0);
 	free(in);
+	in = NULL;
 	if (strm->avail_in != 0) {
 		log_err("Shit happens! Not all data is decompressed");
-		return WS_ERROR;
+		goto error;
 	}
 	*have = size_out - strm->avail_out;
 	return WS_OK;
+
+error:
+	free(in);
+	free(*free_ptr);
+	*free_ptr = NULL;
+	return WS_ERROR;
 }
 
 enum websocket_callback_return text_received_comp(bool is_compressed, struct websocket *s, char *msg, size_t length,
@@ -214,7 +225,10 @@ enum websocket_callback_return text_frame_received_comp(bool is_compressed, stru
 		memmove(strm->next_in, strm->next_in + 4, sumLen);
 
 		ret = private_decompress(s, strm->next_in, sumLen, &free_ptr, &have);
-		if (ret == WS_ERROR) return ret;
+		if (ret == WS_ERROR) {
+			free(in_ptr);
+			return ret;
+		}
 		ret = text_frame_received(s,(char *) free_ptr, have, is_last_frame);
 		free(in_ptr);
 		free(free_ptr);
@@ -260,7 +274,10 @@ enum websocket_callback_return binary_frame_received_comp(bool is_compressed, st
 		size_t sumLen = read_int_from_array(strm->next_in) - strm->avail_in - 4;
 		memmove(strm->next_in, strm->next_in + 4, sumLen);
 		ret = private_decompress(s, strm->next_in, sumLen, &free_ptr, &have);
-		if (ret == WS_ERROR) return ret;
+		if (ret == WS_ERROR) {
+			free(in_ptr);
+			return ret;
+		}
 		ret = binary_frame_received(s, free_ptr, have, is_last_frame);
 		free(in_ptr);
 		free(free_ptr);
